@@ -87,7 +87,7 @@ Section Silent.
   Proof. unfold drop_req. destruct (e_res e); [apply sx_refl | apply sx_chan_drop_tx | apply sx_chan_drop_tx | apply sx_refl]. Qed.
   Lemma sx_kill_flag u H : suffX H (kill_flag u H). Proof. apply sx_same; reflexivity. Qed.
   Lemma sx_sub_drop q H : suffX H (sub_drop q H).
-  Proof. unfold sub_drop. destruct q as [s d tg v ch|m|s tg v ch]; [|apply sx_refl|apply sx_chan_drop_rx]. destruct d; [apply sx_refl | apply sx_chan_drop_rx]. Qed.
+  Proof. unfold sub_drop. destruct q as [s d tg v ch|m|s tg v ch|u]; [|apply sx_refl|apply sx_chan_drop_rx|apply sx_refl]. destruct d; [apply sx_refl | apply sx_chan_drop_rx]. Qed.
   Lemma sx_drop : forall fuel,
     (forall fs H, suffX H (drop_fs fuel fs H)) /\ (forall cid H, suffX H (drop_cmd fuel cid H)).
   Proof.
@@ -157,7 +157,7 @@ Section Silent.
   Qed.
   Lemma sx_sub_poll c w q H q' H' : c <> X -> sub_poll c w q H = (q', H') -> suffX H H'.
   Proof.
-    intros Hne. unfold sub_poll. destruct q as [sent dead tg v ch|m|sent tg v ch].
+    intros Hne. unfold sub_poll. destruct q as [sent dead tg v ch|m|sent tg v ch|u].
     - destruct (req_poll c w sent dead tg v ch H) as [[[o s'] d'] H1] eqn:E1. apply (sx_req_poll _ _ _ _ _ _ _ _ _ _ _ _ Hne) in E1.
       destruct o; intros E; inversion E; subst; exact E1.
     - intros E; inversion E; subst; apply sx_refl.
@@ -166,6 +166,8 @@ Section Silent.
       destruct (ch_buf (gch ch H1)); intros E; inversion E; subst.
       + eapply sx_trans; [exact S1 | apply sx_chan_reg].
       + eapply sx_trans; [exact S1 | apply sx_chan_drop_rx].
+    - destruct (tf_fin (gtf u H)); [intros E; inversion E; subst; apply sx_refl|].
+      destruct (tf_alive (gtf u H)); intros E; inversion E; subst; [apply sx_same; reflexivity | apply sx_note].
   Qed.
 
   (* ---- part B: the five runtime functions, while X is aborted ---- *)
@@ -227,6 +229,8 @@ Section Silent.
         * destruct (new_chan H) as [ch1 H1] eqn:E1. destruct (new_chan H1) as [ch2 H2] eqn:E2.
           go_ih IHp Hne E A ltac:(eapply Rmeta_trans; [eapply rm_new_chan; exact E1 | eapply rm_new_chan; exact E2])
                 ltac:(eapply sx_trans; [eapply sx_new_chan; exact E1 | eapply sx_new_chan; exact E2]).
+        * destruct (new_chan H) as [ch H1] eqn:E1.
+          go_ih IHp Hne E A ltac:(eapply rm_new_chan; exact E1) ltac:(eapply sx_new_chan; exact E1).
         * destruct (new_chan H) as [ch1 H1] eqn:E1. destruct (new_chan H1) as [ch2 H2] eqn:E2.
           go_ih IHp Hne E A ltac:(eapply Rmeta_trans; [eapply rm_new_chan; exact E1 | eapply rm_new_chan; exact E2])
                 ltac:(eapply sx_trans; [eapply sx_new_chan; exact E1 | eapply sx_new_chan; exact E2]).
@@ -293,6 +297,13 @@ Section Silent.
                    ltac:(eapply sx_trans; [exact S1|]; eapply sx_trans; [exact S2 | apply sx_sub_drop]).
         * go_ih IHp Hne E A ltac:(eapply Rmeta_trans; [exact M1|]; apply (R_sub_drop Rmeta Rmeta_refl); intros; apply Rmeta_same_cmds; reflexivity)
                 ltac:(eapply sx_trans; [exact S1 | apply sx_sub_drop]).
+        * destruct (sub_poll c w qb H1) as [b' H2] eqn:E2.
+          pose proof (sx_sub_poll _ _ _ _ _ _ Hne E2) as S2.
+          assert (M2 : Rmeta H1 H2).
+          { eapply (R_sub_poll Rmeta Rmeta_refl Rmeta_trans Rmeta_ucmd); try eassumption; intros; apply Rmeta_same_cmds; reflexivity. }
+          destruct b'; try (inversion E; subst; eapply sx_trans; eassumption).
+          go_ih IHp Hne E A ltac:(eapply Rmeta_trans; [exact M1|]; eapply Rmeta_trans; [exact M2|]; apply (R_sub_drop Rmeta Rmeta_refl); intros; apply Rmeta_same_cmds; reflexivity)
+                   ltac:(eapply sx_trans; [exact S1|]; eapply sx_trans; [exact S2 | apply sx_sub_drop]).
         * destruct (sub_poll c w qb H1) as [b' H2] eqn:E2.
           pose proof (sx_sub_poll _ _ _ _ _ _ Hne E2) as S2.
           assert (M2 : Rmeta H1 H2).
